@@ -380,6 +380,14 @@ impl DnsCache {
         removed
     }
 
+    /// Removes the NSEC records that expired.
+    pub(crate) fn evict_expired_nsec(&mut self, now: u64) {
+        self.nsec.retain(|_, records| {
+            records.retain(|nsec| !nsec.record.get_record().is_expired(now));
+            !records.is_empty()
+        });
+    }
+
     /// Evicts expired PTR and SRV, TXT records for each ty_domain in the cache, and
     /// returns the set of expired instance names for each ty_domain.
     ///
